@@ -328,7 +328,11 @@ func (s String) RemoveSuffix(other Value) (String, Value) {
 	case CHAR_FLAG:
 		o := other.AsChar()
 		r, rLen := utf8.DecodeLastRuneInString(string(s))
-		if len(s) > 0 && r == rune(o) {
+		if r == utf8.RuneError && rLen <= 1 {
+			// empty string or an invalid last byte, not an encoded U+FFFD
+			return s, Undefined
+		}
+		if r == rune(o) {
 			return s[0 : len(s)-rLen], Undefined
 		}
 		return s, Undefined
